@@ -112,6 +112,40 @@ def check_clusters(model, rep):
             '(silently wrong values, e.g. f1(i) f2(j) f3(i,j))' if early else 'the cluster collection loop lost its merge test or the append after the scan'), statement='clusters-disjoint')
 
 
+DEDUP = ('set', 'frozenset', 'dict.fromkeys', 'numpy.unique', 'collections.OrderedDict.fromkeys')
+
+
+def check_term_multiset(model, rep):
+    """R05.8: the operands of an n-ary node are a multiset (Add.funcs is a frozenmultiset: a + a has the term a twice).  An _assparse
+    that gathers the chunks of its operands must visit every occurrence; iterating over a de-duplicated collection (set, frozenset,
+    dict.fromkeys, unique) drops the repeated contribution while shape, order and uniqueness of the indices stay intact."""
+    ev = model.module('evaluable')
+    n = 0
+    for c in ev.classes.values():
+        mem = c.members.get('_assparse')
+        if mem is None or mem.func is None:
+            continue
+        fn = mem.func.node
+        binds = {}
+        for s_ in ast.walk(fn):
+            if isinstance(s_, ast.Assign) and len(s_.targets) == 1 and isinstance(s_.targets[0], ast.Name):
+                binds.setdefault(s_.targets[0].id, []).append(s_.value)
+        for comp in ast.walk(fn):
+            if not isinstance(comp, (ast.GeneratorExp, ast.ListComp)):
+                continue
+            if not any(isinstance(x, ast.Attribute) and x.attr == '_assparse' for x in ast.walk(comp.elt)):
+                continue
+            for g in comp.generators:
+                n += 1
+                its = [g.iter] + (binds.get(g.iter.id, []) if isinstance(g.iter, ast.Name) else [])
+                bad = [x for it in its for x in ast.walk(it) if isinstance(x, ast.Call) and src(x.func) in DEDUP]
+                ok = not bad
+                rep.ob('R05.8', mem.func.key, mem.func.where(comp), ok, f'{c.name}._assparse gathers the chunks of every occurrence of its operands (`{src(g.iter)[:40]}`)' if ok else
+                       f'{c.name}._assparse iterates over `{src(bad[0])[:50]}`: a repeated operand (a + a) contributes its chunks once, so the sparse values are those of a, not 2a', statement='operand-multiset')
+    if n < 2:
+        raise AnalysisError(f'only {n} operand loops over _assparse found')
+
+
 def run(model, rep, tier):
     rep.explanation = (
         'R05.1 def-use inside evaluable.Array.assparse: `flatindex, inverse = unique(Guard(concatenate(index_parts)), return_inverse=True)`; the index list starts from that flatindex and the values are '
@@ -124,6 +158,7 @@ def run(model, rep, tier):
     rep.rule('R05.3', 'unique() wiring')
     rep.rule('R05.4', 'CSR tuple order agrees across modules')
     rep.rule('R05.5', '_assparse overrides are debug-verified')
+    rep.rule('R05.8', '_assparse gathers the chunks of every occurrence of the operands (multiset, no de-duplication)')
     rep.rule('R05.6', 'Inflate._assparse: stride vector of the flattened dof map is row-major (symbolic evaluation)')
     rep.rule('R05.7', 'Multiply._assparse: factor clusters are kept pairwise axis-disjoint (full scan, then append)')
     A = model.cls('evaluable:Array')
@@ -228,5 +263,6 @@ def run(model, rep, tier):
         raise AnalysisError(f'only {n} _assparse implementations found')
     check_strides(model, rep)
     check_clusters(model, rep)
+    check_term_multiset(model, rep)
     rep.require('R05.1', 5)
     rep.require('R05.4', 6)
